@@ -88,6 +88,43 @@ def h1_line(timeout=200, part=None, **kw):
                          timeout, concretize=conc, shims={"namespace_shims": shims}, part=part)
 
 
+def h1_line_v(timeout=200, part=None, **kw):
+    """two glyphs with detect_vertical on: they form ONE vertical line exactly when they overlap horizontally by more than line_overlap x min(width) and their vertical distance is below
+    char_margin x max(HEIGHT) while the horizontal rule does not hold as well; ONE horizontal line exactly when only the horizontal rule holds; two lines otherwise"""
+    shims = C08.setup()
+    import pdfminer.layout as lt
+
+    def fn(ex):
+        a, b = mkchar(ex, "a", "a"), mkchar(ex, "b", "b")
+        lo, cm = ex.real("lo", 0, 1), ex.real("cm", 0, 4)
+        ex.assume(lo < 1)
+        la = laparams(line_overlap=lo, char_margin=cm, word_margin=0, detect_vertical=True)
+        cont = lt.LTLayoutContainer((0, 0, 100, 100))
+        lines = list(cont.group_objects(la, [a, b]))
+        info = {"a": a.bbox, "b": b.bbox, "lo": lo, "cm": cm, "wm": 0, "vertical": True}
+        vov = zmin2(a.y1, b.y1) - zmax2(a.y0, b.y0)
+        hgap = zmax2(zmax2(a.x0, b.x0) - zmin2(a.x1, b.x1), 0)
+        hov = zmin2(a.x1, b.x1) - zmax2(a.x0, b.x0)
+        vgap = zmax2(zmax2(a.y0, b.y0) - zmin2(a.y1, b.y1), 0)
+        halign = z3.And(vov >= 0, vov > zr(lo) * zmin2(a.height, b.height), hgap < zr(cm) * zmax2(a.width, b.width))
+        valign = z3.And(hov >= 0, hov > zr(lo) * zmin2(a.width, b.width), vgap < zr(cm) * zmax2(a.height, b.height))
+        if len(lines) == 1:
+            if isinstance(lines[0], lt.LTTextLineVertical):
+                ex.require(SB(z3.And(valign, z3.Not(halign))), "two glyphs were joined into one vertical line although the documented rule (horizontal overlap, vertical distance below char_margin x height) does not select it", **info)
+            else:
+                ex.require(SB(z3.And(halign, z3.Not(valign))), "two glyphs were joined into one horizontal line although the documented rule does not select it", **info)
+        else:
+            ex.require(len(lines) == 2, "%d lines for two glyphs" % len(lines), **info)
+            ex.require(SB(halign == valign), "two glyphs were not joined although exactly one of the horizontal / vertical rules holds", **info)
+
+    def conc(m, info):
+        g = lambda t: [symx.mval(m, v) for v in t]
+        return {"a": g(info["a"]), "b": g(info["b"]), "lo": symx.mval(m, info["lo"]), "cm": symx.mval(m, info["cm"]), "wm": 0, "vertical": True}
+    return core.run_symx("H1_line", fn, [lt.LTLayoutContainer.group_objects, lt.LTComponent.hoverlap, lt.LTComponent.vdistance, lt.LTComponent.is_hoverlap, lt.LTTextLineVertical.add],
+                         {"glyphs": "two, boxes symbolic in [0,100], sizes (0,30]", "line_overlap": "symbolic [0,1)", "char_margin": "symbolic [0,4]", "detect_vertical": True},
+                         timeout, concretize=conc, shims={"namespace_shims": shims}, part=part)
+
+
 # ----------------------------------------------------------------------------------------------- H3
 def mkline(ex, name, vertical, lo=0, hi=50):
     import pdfminer.layout as lt
@@ -383,6 +420,16 @@ def replay(harness, inp):
             return c
         a, b = ch("a", inp["a"]), ch("b", inp["b"])
         lo, cm, wm = F(inp["lo"]), F(inp["cm"]), F(inp["wm"])
+        if inp.get("vertical"):
+            lines = list(lt.LTLayoutContainer((0, 0, 100, 100)).group_objects(laparams(line_overlap=lo, char_margin=cm, word_margin=0, detect_vertical=True), [a, b]))
+            vov, hov = min(a.y1, b.y1) - max(a.y0, b.y0), min(a.x1, b.x1) - max(a.x0, b.x0)
+            hgap, vgap = max(max(a.x0, b.x0) - min(a.x1, b.x1), 0), max(max(a.y0, b.y0) - min(a.y1, b.y1), 0)
+            halign = vov >= 0 and vov > lo * min(a.height, b.height) and hgap < cm * max(a.width, b.width)
+            valign = hov >= 0 and hov > lo * min(a.width, b.width) and vgap < cm * max(a.height, b.height)
+            exp = "one vertical line" if (valign and not halign) else ("one horizontal line" if (halign and not valign) else "two lines")
+            got = "two lines" if len(lines) == 2 else ("one vertical line" if len(lines) == 1 and isinstance(lines[0], lt.LTTextLineVertical) else ("one horizontal line" if len(lines) == 1 else "%d lines" % len(lines)))
+            return None if got == exp else "glyph boxes a=%r b=%r, line_overlap=%s char_margin=%s, detect_vertical: %s, the documented rules (horizontal %s, vertical %s) give %s" % (
+                tuple(map(float, a.bbox)), tuple(map(float, b.bbox)), float(lo), float(cm), got, halign, valign, exp)
         lines = list(lt.LTLayoutContainer((0, 0, 100, 100)).group_objects(laparams(line_overlap=lo, char_margin=cm, word_margin=wm), [a, b]))
         overlap = min(a.y1, b.y1) - max(a.y0, b.y0)
         gap = max(max(a.x0, b.x0) - min(a.x1, b.x1), 0)
@@ -460,6 +507,7 @@ def jobs(tier):
     if tier == "quick":
         for k in range(3):
             J.append(Job("H1_line:%d" % k, "h1_line", {"part": [k, 3, 7]}, 300, "H1_line"))
+            J.append(Job("H1_line:v:%d" % k, "h1_line_v", {"part": [k, 3, 7]}, 300, "H1_line"))
         for v in (False, True):
             for k in range(3):
                 J.append(Job("H3_neighbors:%s:%d" % ("v" if v else "h", k), "h3_neighbors", {"vertical": v, "part": [k, 3, 8]}, 300, "H3_neighbors"))
@@ -473,6 +521,7 @@ def jobs(tier):
     else:
         for k in range(4):
             J.append(Job("H1_line:%d" % k, "h1_line", {"part": [k, 4, 8]}, 900, "H1_line"))
+            J.append(Job("H1_line:v:%d" % k, "h1_line_v", {"part": [k, 4, 8]}, 900, "H1_line"))
         for v in (False, True):
             for k in range(4):
                 J.append(Job("H3_neighbors:%s:%d" % ("v" if v else "h", k), "h3_neighbors", {"vertical": v, "part": [k, 4, 8]}, 900, "H3_neighbors"))
